@@ -337,7 +337,7 @@ example : (buildOutput { dbBlack := [1, 3, -1] }).filterDb 2 = false := by decid
 theorem parse_forward_iff (f : KeyFilter) (bypass : Bool) (cmd : Bytes) (argv out : List Bytes)
     (hp : cmd ≠ wPing) (hs : eqFold cmd wSelect = false) :
     parseFilter f bypass cmd argv = (bypass, .forward cmd out) ↔
-      bypass = false ∧ f.filterCmd cmd = false ∧
+      (bypass && !isTxnBracket cmd) = false ∧ f.filterCmd cmd = false ∧
       (eqFold cmd wPublish && eqFold (argv.headD []) wSentinelHello) = false ∧
       f.filterCmdKey cmd argv = some out := by
   unfold parseFilter
@@ -346,7 +346,7 @@ theorem parse_forward_iff (f : KeyFilter) (bypass : Bool) (cmd : Bytes) (argv ou
   cases hfc : f.filterCmd cmd <;> simp only [Bool.false_eq_true, if_false, if_true]
   · cases hsen : (eqFold cmd wPublish && eqFold (argv.headD []) wSentinelHello) <;>
       simp only [Bool.false_eq_true, if_false, if_true]
-    · cases bypass <;> simp only [Bool.false_eq_true, if_false, if_true]
+    · cases hb : (bypass && !isTxnBracket cmd) <;> simp only [Bool.false_eq_true, if_false, if_true]
       · cases hk : f.filterCmdKey cmd argv <;> simp
       · simp
     · simp
